@@ -21,10 +21,20 @@ func (ev *Ev) callExpr(x *ast.CallExpr) Value {
 		return ev.convert(arg, tv.Type, x)
 	}
 	callee := typeutil.Callee(info, x)
-	if b, ok := callee.(*types.Builtin); ok {
-		return ev.builtin(b.Name(), x)
+	ord, hasOrd := ev.u.callOrd[x]
+	if hasOrd {
+		ev.u.ghostAt(ev.st, "before "+ord, x.Pos())
 	}
-	return ev.u.call(ev, x, callee)
+	var out Value
+	if b, ok := callee.(*types.Builtin); ok {
+		out = ev.builtin(b.Name(), x)
+	} else {
+		out = ev.u.call(ev, x, callee)
+	}
+	if hasOrd && !ev.st.dead {
+		ev.u.ghostAt(ev.st, "after "+ord, x.Pos())
+	}
+	return out
 }
 
 func (ev *Ev) convert(v Value, to types.Type, at ast.Expr) Value {
@@ -212,8 +222,13 @@ func (ev *Ev) builtin(name string, x *ast.CallExpr) Value {
 			return ev.errorf(x.Pos(), "append to non-slice")
 		}
 		cur := s
-		for _, a := range x.Args[1:] {
+		for ai, a := range x.Args[1:] {
 			val := ev.coerce(ev.exprWithType(a, st.Elem()), st.Elem())
+			if ai == 0 {
+				if ord, ok := u.callOrd[x]; ok {
+					u.callSiteClauses(ev, ord, nil, []Value{s, val}, nil)
+				}
+			}
 			arr := u.allocRef(ev.st, "arr")
 			walkValue(val, "", func(path string, l Value) {
 				key, as := ev.elemFam(typeKey(st.Elem()), path, l.S)
@@ -450,6 +465,15 @@ func (u *Unit) havocHeap(st *State, why string) {
 	st.assume(fmt.Sprintf("(forall ((r Ref)) (! (=> (select %s r) (select %s r)) :pattern ((select %s r))))", old, nw, nw))
 }
 
+// growAlloc: the callee may allocate (allocation only grows).
+func (u *Unit) growAlloc(st *State) {
+	as := arraySort(SRef, SBool)
+	u.famSort("alloc", as)
+	old := u.fam(st, "alloc", as)
+	nw := u.havocFam(st, "alloc", as)
+	st.assume(fmt.Sprintf("(forall ((r Ref)) (! (=> (select %s r) (select %s r)) :pattern ((select %s r))))", old, nw, nw))
+}
+
 func (u *Unit) callOrdinal(x *ast.CallExpr, name string) string {
 	if s, ok := u.callOrd[x]; ok {
 		return s
@@ -607,6 +631,11 @@ func (u *Unit) callFunc(ev *Ev, x *ast.CallExpr, f *types.Func, recv *Value) Val
 			c = alt
 		}
 	}
+	if len(u.iterLists) > 0 && recv != nil && (key == "(*container/list.List).PushBack" || key == "(*container/list.List).PushFront") {
+		for _, l := range u.iterLists {
+			u.emit(st, "listiter_nopush@"+ord, not(app("=", recv.T, l)), "no push onto the list being traversed")
+		}
+	}
 	if c != nil {
 		return u.applyContract(ev, c, sig, recv, args, ord, x.Pos(), false)
 	}
@@ -730,6 +759,9 @@ func (u *Unit) applyContract(ev *Ev, c *Contract, sig *types.Signature, recv *Va
 		if c.Flags["havoc_heap"] {
 			u.havocHeap(st, "callee declared havoc_heap: "+c.Key)
 		}
+		if c.Flags["allocates"] {
+			u.growAlloc(st)
+		}
 	}
 	// results
 	var res []Value
@@ -786,9 +818,13 @@ func (u *Unit) applyContract(ev *Ev, c *Contract, sig *types.Signature, recv *Va
 			u.doPanic(ps, pv)
 		}
 	}
+	nBefore := len(st.pc)
 	for _, e := range c.Ensures {
 		g := sev.expr(e.Expr)
 		st.assume(g.T)
+	}
+	if !pureUse && len(c.Ensures) > 0 {
+		u.emitReach(st, "reach/after "+ord, nBefore, "the assumed postcondition of "+shortKey(c.Key)+" is consistent with the state at the call")
 	}
 	if !pureUse {
 		for _, r := range res {
